@@ -65,7 +65,7 @@ main (void)
 #elif defined (H_STRIDE)
 	/* count = 3: each element converted independently and in place order */
 	short nd_s [3] ; unsigned char u [3], a [3] ; short d [3] ; int k ;
-	for (k = 0 ; k < 3 ; k++) nd_s [k] = nondet_short () ;
+	ND_FILL (nd_s, 3, short) ;
 	s2ulaw_array (nd_s, 3, u) ;
 	s2alaw_array (nd_s, 3, a) ;
 	for (k = 0 ; k < 3 ; k++)
